@@ -316,10 +316,31 @@ def _lower(stmts, emit):
     return out, False
 
 
+def _as_expression(body):
+    """Statement list consisting of guard returns only
+        [if c: return A]* return B
+    -> the equivalent expression (A if c else B); None otherwise."""
+    if not body:
+        return None
+    st = body[0]
+    if isinstance(st, ast.Return) and st.value is not None and len(body) == 1:
+        return st.value
+    if isinstance(st, ast.If) and len(st.body) == 1 and isinstance(
+            st.body[0], ast.Return) and st.body[0].value is not None:
+        rest = st.orelse if st.orelse else body[1:]
+        if st.orelse and body[1:]:
+            return None
+        tail = _as_expression(list(rest))
+        if tail is None:
+            return None
+        return ast.copy_location(ast.IfExp(
+            test=st.test, body=st.body[0].value, orelse=tail), st)
+    return None
+
+
 def _expr_like(h):
     body = _body_wo_doc(h.fn)
-    return len(body) == 1 and isinstance(body[0], ast.Return) and \
-        body[0].value is not None
+    return _as_expression(body) is not None
 
 
 class _Inliner:
@@ -520,7 +541,7 @@ class _ExprInline(ast.NodeTransformer):
         key = (self.inl.mod, h.cls.name if h.cls else None, h.name)
         self.inl.inlined[key] = self.inl.inlined.get(key, 0) + 1
         self.did = True
-        return ast.copy_location(body[0].value, node)
+        return ast.copy_location(_as_expression(body), node)
 
 
 def inline_local_functions(tree):
